@@ -222,15 +222,28 @@ def _file_index_of_tmp(c: dict, names: list, tmpdir_name: str) -> int:
 class Hooks:
     """Event log + fault trigger shared by the Python-layer proxies and the harness tensors."""
 
-    def __init__(self, fault: dict | None = None):
+    def __init__(self, fault: dict | None = None, sink: str | None = None):
+        self.sink = os.open(sink, os.O_WRONLY | os.O_CREAT | os.O_APPEND, 0o644) if sink else None
         self.events: list = []
-        self.fault = fault  # {"a","t","j","occ","kind": "fail"|"kill", "errno": name, "exc": "os"|"rt"}
+        self.fault = fault  # one fault or a list: {"a","t","j","occ","kind": "fail"|"kill", "errno": name, "exc": "os"|"rt"}
         self.lock = threading.RLock()
         self.threads: dict = {}
         self.main = threading.get_ident()
         self.counts: dict = {}
         self.fired = 0
         self.on_kill = None  # callable(events) run just before os._exit
+
+    def log(self, ev: dict) -> dict:
+        """Append an event; also streamed to the sink so that it survives the death of the process."""
+        self.events.append(ev)
+        if self.sink is not None:
+            os.write(self.sink, (json.dumps(ev) + "\n").encode())
+        return ev
+
+    def patch_last(self, ev: dict, r: str) -> None:
+        ev["r"] = r
+        if self.sink is not None:
+            os.write(self.sink, (json.dumps({"patch": len(self.events) - 1, "r": r}) + "\n").encode())
 
     def worker(self) -> int:
         ident = threading.get_ident()
@@ -247,23 +260,24 @@ class Hooks:
         key = (a, t, j)
         self.counts[key] = self.counts.get(key, 0) + 1
         ev = {"a": a, "t": t, "j": j, "w": w, "r": "ok"}
-        f = self.fault
-        if f and f["a"] == a and f.get("t", 0) == t and f.get("j", 0) == j and f.get("occ", 1) == self.counts[key]:
+        faults = self.fault if isinstance(self.fault, list) else ([self.fault] if self.fault else [])
+        for f in faults:
+            if not (f["a"] == a and f.get("t", 0) == t and f.get("j", 0) == j and f.get("occ", 1) == self.counts[key]):
+                continue
             self.fired += 1
             if f["kind"] == "kill":
                 ev["r"] = "kill"
-                self.events.append(ev)
+                self.log(ev)
                 if self.on_kill:
                     self.on_kill(self.events)
                 os._exit(137)
             ev["r"] = "fail"
-            self.events.append(ev)
+            self.log(ev)
             if f.get("exc") == "rt":
                 raise RuntimeError(f"vf injected failure at {a}({t},{j})")
             en = getattr(_errno, f.get("errno", "EIO"))
             raise OSError(en, os.strerror(en) + " [vf injected]")
-        self.events.append(ev)
-        return ev
+        return self.log(ev)
 
 
 def build_model(c: dict, d: str, hooks: Hooks | None):
@@ -310,13 +324,13 @@ def build_model(c: dict, d: str, hooks: Hooks | None):
         def release(self) -> None:
             if hooks is not None and getattr(self, "_vf_armed", False):
                 with hooks.lock:
-                    hooks.events.append({"a": "ReleaseMap", "t": self._vf_t, "j": 0, "w": hooks.worker(), "r": "ok"})
+                    hooks.log({"a": "ReleaseMap", "t": self._vf_t, "j": 0, "w": hooks.worker(), "r": "ok"})
             super().release()
 
         def invalidate(self) -> None:
             if hooks is not None and getattr(self, "_vf_armed", False):
                 with hooks.lock:
-                    hooks.events.append({"a": "Invalidate", "t": self._vf_t, "j": 0, "w": hooks.worker(), "r": "ok"})
+                    hooks.log({"a": "Invalidate", "t": self._vf_t, "j": 0, "w": hooks.worker(), "r": "ok"})
             super().invalidate()
 
     vals, ext = [], {}
@@ -791,7 +805,7 @@ class PyLayer:
                 try:
                     return os.remove(path, **kw)
                 except FileNotFoundError:
-                    ev["r"] = "soft"
+                    h.patch_last(ev, "soft")
                     raise
 
         def rmdir(path, **kw):
@@ -892,7 +906,7 @@ PRODUCING = {"CheckExists", "MkTmpDir", "OpenTmp", "Prealloc", "CloseTmp", "Call
              "OpenWorker", "CloseWorker", "CopyMode", "Replace"}
 
 
-def py_run(c: dict, d: str, fault: dict | None, on_kill=None) -> dict:
+def py_run(c: dict, d: str, fault: dict | None, on_kill=None, sink: str | None = None) -> dict:
     """One save of configuration c in directory d (already prepared) with the Python-layer proxies,
     in THIS process.  Returns {"events", "out", "exc", "tensors"}; does not return when the fault kills."""
     import logging
@@ -900,7 +914,7 @@ def py_run(c: dict, d: str, fault: dict | None, on_kill=None) -> dict:
     import onnx_ir as ir
 
     logging.getLogger("onnx_ir").setLevel(logging.ERROR)
-    hooks = Hooks(fault)
+    hooks = Hooks(fault, sink)
     hooks.on_kill = on_kill
     model, ext = build_model(c, d, hooks)
     for ten in ext.values():
@@ -932,6 +946,7 @@ def py_job(job: dict) -> dict:
     c, d, fault = norm_cfg(job["cfg"]), job["dir"], job.get("fault")
     prepare_dir(c, d)
     rpath = d + ".result.json"
+    epath = d + ".events"
     pid = os.fork()
     if pid == 0:
         code = 3
@@ -939,7 +954,7 @@ def py_job(job: dict) -> dict:
             def on_kill(events):
                 _robust_write(rpath, {"out": "crashed", "events": events, "tensors": {}, "fired": 1})
 
-            res = py_run(c, d, fault, on_kill)
+            res = py_run(c, d, fault, on_kill, epath)
             _robust_write(rpath, res)
             code = 0
         except BindingError as e:
@@ -956,17 +971,38 @@ def py_job(job: dict) -> dict:
         with open(rpath) as f:
             res = json.load(f)
     except (OSError, ValueError):
-        res = {"harness_error": f"no result file, wait status {status}"}
-    try:
-        os.unlink(rpath)
-    except OSError:
-        pass
+        # the process died on its own during the save (e.g. SIGBUS): a crash, with the streamed events
+        res = {"out": "crashed", "events": _read_events(epath), "tensors": {}, "fired": 0, "died": True}
+    for x in (rpath, epath):
+        try:
+            os.unlink(x)
+        except OSError:
+            pass
     res["status"] = status
     res["obs"] = observe(c, d)
     res["cfg"] = c
     res["fault"] = fault
     res["layer"] = "py"
     return res
+
+
+def _read_events(path: str) -> list:
+    evs = []
+    try:
+        with open(path) as f:
+            for line in f:
+                try:
+                    o = json.loads(line)
+                except ValueError:
+                    continue
+                if "patch" in o:
+                    if 0 <= o["patch"] < len(evs):
+                        evs[o["patch"]]["r"] = o["r"]
+                else:
+                    evs.append(o)
+    except OSError:
+        pass
+    return evs
 
 
 def _robust_write(path: str, obj) -> None:
